@@ -91,6 +91,10 @@ def jobs(tier, seed):
     for doc in ('html', 'css', 'js', 'sitemap', 'sitemap-txt'):
         js.append(dict(kind='doc', doc=doc, stride=stride if doc == 'html' else 1))
     js.append(dict(kind='e2e'))
+    js.append(dict(kind='longline'))
+    js.append(dict(kind='charset'))
+    for i in range(0, len(HEADER_VALUES), 6):
+        js.append(dict(kind='header-e2e', idx=[i, i + 6]))
     for i in range(0, len(ROBOTS_STATUS), 3):
         js.append(dict(kind='robots-status', statuses=ROBOTS_STATUS[i:i + 3]))
     if seed:
@@ -213,7 +217,9 @@ def run_doc_case(doc, data, ctype_variant=0):
     req = Request(url)
     resp = Response(200, 'OK')
     resp.request = req
-    if ctype_variant == 0:
+    if isinstance(ctype_variant, (list, tuple)):
+        resp.fields['Content-Type'] = '%s; charset=%s' % (ctype, ctype_variant[1])
+    elif ctype_variant == 0:
         resp.fields['Content-Type'] = ctype
     elif ctype_variant == 1:
         resp.fields['Content-Type'] = ctype + '; charset=utf-16'
@@ -342,6 +348,63 @@ def run_job(job):
                            dict(kind='doc', doc=job['doc'], data=data.decode('latin-1'),
                                 variant=variant))
         res['samples'].append(dict(surface='document', doc=job['doc'], cases=n))
+    elif kind == 'longline':
+        for name, data in LONGLINE_HTTP.items():
+            for bw in (False,):
+                v = run_http_case(data.encode('latin-1'))
+                res['evaluations'] += 1
+                tally(v)
+                res['distinct'].add(h64(('ll', name)))
+                if v:
+                    record(res, seen, 'http-longline/' + name, name, v,
+                           dict(kind='http', data=data, method='GET', bytewise=False))
+        for name, (key, text) in LONGLINE_FTP.items():
+            script = {'data': 'hello', key: text}
+            v = run_ftp_case(script, 'file')
+            res['evaluations'] += 1
+            tally(v)
+            res['distinct'].add(h64(('llf', name)))
+            if v:
+                record(res, seen, 'ftp-longline/' + name, name, v,
+                       dict(kind='ftp', script=script, mode='file'))
+        for d in LISTINGS:
+            script = {'listing': LISTINGS[d] + LONG + '\r\n' + LISTINGS[d]}
+            if d == 'mlsd':
+                script['mlsd'] = '150 here\r\n'
+            v = run_ftp_case(script, 'listing')
+            res['evaluations'] += 1
+            tally(v)
+            res['distinct'].add(h64(('lll', d)))
+            if v:
+                record(res, seen, 'ftp-listing-longline/' + d, d, v,
+                       dict(kind='ftp', script=script, mode='listing'))
+        res['samples'].append(dict(surface='lines longer than the 64 KiB reader limit',
+                                   http=sorted(LONGLINE_HTTP), ftp=sorted(LONGLINE_FTP)))
+    elif kind == 'charset':
+        for doc in DOCS:
+            for cs in CHARSETS:
+                seed = DOCS[doc][0].encode('utf-8')
+                for data in (seed, b'\xff\xfe' + seed, b''):
+                    v = run_doc_case(doc, data, ('charset', cs))
+                    res['evaluations'] += 1
+                    tally(v)
+                    res['distinct'].add(h64(('cs', doc, cs, len(data))))
+                    if v:
+                        record(res, seen, 'doc-charset/' + doc, cs[:20], v,
+                               dict(kind='doc', doc=doc, data=data.decode('latin-1'),
+                                    variant=['charset', cs]))
+        res['samples'].append(dict(surface='declared charset', charsets=CHARSETS[:12]))
+    elif kind == 'header-e2e':
+        for name, value in HEADER_VALUES[job['idx'][0]:job['idx'][1]]:
+            v = run_header_e2e(name, value)
+            res['evaluations'] += 1
+            tally(v)
+            res['distinct'].add(h64(('hv', name, value)))
+            if v:
+                record(res, seen, 'header-e2e/' + name, value[:30], v,
+                       dict(kind='header-e2e', name=name, value=value))
+        res['samples'].append(dict(surface='hostile header values, files written',
+                                   n=job['idx']))
     elif kind == 'robots-status':
         for status in job['statuses']:
             for body in ROBOTS_BODIES:
@@ -384,6 +447,85 @@ E2E = {
     'refresh': 'HTTP/1.1 200 OK\r\nRefresh: 0; url=http://[bad\r\nContent-Type: text/html\r\n'
                'Content-Length: 13\r\n\r\n<a href="/s">',
 }
+
+
+LONG = 'A' * 70000          # longer than the 64 KiB StreamReader line limit
+
+LONGLINE_HTTP = {
+    'status-line': 'HTTP/1.1 200 ' + LONG + '\r\nContent-Length: 2\r\n\r\nhi',
+    'header-line': 'HTTP/1.1 200 OK\r\nX-Long: ' + LONG + '\r\nContent-Length: 2\r\n\r\nhi',
+    'header-noeol': 'HTTP/1.1 200 OK\r\nX-Long: ' + LONG,
+    'chunk-size': 'HTTP/1.1 200 OK\r\nTransfer-Encoding: chunked\r\n\r\n2;' + LONG
+                  + '\r\nhi\r\n0\r\n\r\n',
+    'after-chunk': 'HTTP/1.1 200 OK\r\nTransfer-Encoding: chunked\r\n\r\n2\r\nhi' + LONG
+                   + '\r\n0\r\n\r\n',
+    'trailer': 'HTTP/1.1 200 OK\r\nTransfer-Encoding: chunked\r\n\r\n2\r\nhi\r\n0\r\n'
+               'X-T: ' + LONG + '\r\n\r\n',
+    'trailer-noeol': 'HTTP/1.1 200 OK\r\nTransfer-Encoding: chunked\r\n\r\n2\r\nhi\r\n0\r\n'
+                     + LONG,
+    'many-headers': 'HTTP/1.1 200 OK\r\n' + 'X: y\r\n' * 9000 + 'Content-Length: 2\r\n\r\nhi',
+}
+LONGLINE_FTP = {
+    'welcome': ('welcome', '220 ' + LONG + '\r\n'),
+    'welcome-noeol': ('welcome', '220-' + LONG),
+    'pasv': ('pasv', '227 ' + LONG + ' (10,0,0,1,8,73)\r\n'),
+    'retr_end': ('retr_end', '226-' + LONG + '\r\n226 done\r\n'),
+}
+CHARSETS = ['hex', 'base64', 'zlib', 'rot13', 'bz2', 'uu', 'quopri', 'idna', 'punycode',
+            'undefined', 'unicode_escape', 'raw_unicode_escape', 'utf-16', 'utf-32', 'utf-7',
+            'cp65001', 'x-nonexistent', 'mbcs', 'oem', '', ' ', '"', 'utf-8;', 'utf_8_sig',
+            'u' * 300, '\x00', 'latin-1\x00', 'string_escape', 'charmap', 'unicode_internal']
+HEADER_VALUES = [
+    ('Last-Modified', 'garbage'), ('Last-Modified', ''), ('Last-Modified', '99999999999999'),
+    ('Last-Modified', 'Mon, 32 Foo 2020 25:61:61 GMT'),
+    ('Last-Modified', 'Thu, 01 Jan 1970 00:00:00 GMT'), ('Last-Modified', '\xff\xfe'),
+    ('Last-Modified', 'Sat, 01 Jan 0001 00:00:00 GMT'),
+    ('Last-Modified', 'Fri, 31 Dec 9999 23:59:59 GMT'),
+    ('Content-Type', 'text/html; charset=hex'), ('Content-Type', 'text/html; charset='),
+    ('Content-Type', ';;;'), ('Content-Type', 'text/html; charset="'),
+    ('Content-Type', 'a' * 5000), ('Content-Disposition', 'attachment; filename="'),
+    ('Content-Disposition', 'attachment; filename=\x00'), ('Content-Length', '-1'),
+    ('Content-Length', '1e3'), ('Content-Length', ' 2 , 2'),
+    ('Content-Encoding', 'gzip, gzip'), ('Content-Encoding', '\xff'),
+    ('Transfer-Encoding', 'chunked, chunked'), ('Transfer-Encoding', 'gzip'),
+    ('Refresh', '0; url=http://[bad'), ('Refresh', 'x' * 3000), ('Refresh', '-1;url= '),
+    ('Set-Cookie', 'a=b; Expires=garbage; Max-Age=xyz; Domain=..; Path=\x00'),
+    ('Set-Cookie', '=' * 5000), ('Set-Cookie', 'a=b; Max-Age=' + '9' * 400),
+    ('Link', '<http://[bad>; rel=next'), ('ETag', '\x00'), ('Connection', '\x00close'),
+    ('Content-Range', 'bytes garbage'), ('Location', 'http://a.test/ok'),
+    ('Content-Language', '\x85\x85'), ('X-Dup', 'a\r\nX-Dup: b'),
+]
+
+
+def run_header_e2e(name, value):
+    """Crawl (files are written: default file writer) where one page carries a hostile
+    header value."""
+    from vt.appharn import AppRun
+    body = '<html><a href="/sibling">s</a></html>'
+    raw = ('HTTP/1.1 200 OK\r\nContent-Type: text/html\r\n%s: %s\r\n' % (name, value))
+    if name.lower() not in ('content-length', 'transfer-encoding'):
+        raw += 'Content-Length: %d\r\n' % len(body)
+    if name.lower() == 'content-type':
+        raw = 'HTTP/1.1 200 OK\r\n%s: %s\r\nContent-Length: %d\r\n' % (name, value, len(body))
+    raw += '\r\n' + body
+    site = {'hosts': {'a.test': {
+        '/': {'links': ['/hostile', '/sibling']},
+        '/hostile': {'raw': raw, 'close': True},
+        '/sibling': {'links': []}, '/ok': {'links': []}}}}
+    argv = ['http://a.test/', '-r', '--no-robots', '--waitretry', '0', '--tries', '2',
+            '--content-disposition']
+    out = AppRun(site, argv, Chooser(), early=False).run()
+    if out['result'] != 'ok':
+        return 'crawl does not terminate: %s' % out['result']
+    if out['exc']:
+        return 'application raised %s' % out['exc']
+    if out['exit'] == 1:
+        return 'exit status 1 (generic error / crash)'
+    if out['loop_errors']:
+        return 'unretrieved exception %r' % (out['loop_errors'][:1],)
+    if not any(q['target'] == '/sibling' for q in out['requests']):
+        return 'sibling URL was not fetched after the hostile response'
+    return None
 
 
 ROBOTS_STATUS = ['200 OK', '201 Created', '203 Non-Authoritative', '204 No Content',
@@ -453,6 +595,8 @@ def replay(rec):
         v = run_robots_case(rec['data'].encode('latin-1'))
     elif k == 'robots-status':
         v = run_robots_e2e(rec['status'], rec['body'])
+    elif k == 'header-e2e':
+        v = run_header_e2e(rec['name'], rec['value'])
     elif k == 'doc':
         v = run_doc_case(rec['doc'], rec['data'].encode('latin-1'), rec['variant'])
     else:
